@@ -38,7 +38,8 @@ impl GridSpec {
             let d = *rng.pick(&[1000.0, 2500.0, 10000.0]);
             (d, d * *rng.pick(&[1.0, 2.0]), rng.int(5000, 6000) as f64 * 1000.0, rng.int(300, 700) as f64 * 1000.0)
         } else {
-            let d = *rng.pick(&[0.25, 0.5, 1.0, 0.125]);
+            // increments with and without an exact binary representation
+            let d = *rng.pick(&[0.25, 0.5, 1.0, 0.125, 0.1, 0.05, 0.2, 0.3]);
             (d, d * *rng.pick(&[1.0, 2.0, 0.5]), rng.int(-70, 60) as f64, rng.int(-170, 140) as f64)
         };
         let lat_n = lat_s + dlat * (rows - 1) as f64;
